@@ -59,8 +59,15 @@ func (concCore) handle(ws []string) string {
 	switch ws[0] {
 	case "reset":
 		return "reset"
-	case "run":
+	case "run", "lap":
 		npub, nmsg, size, qos, bufsize := atoi(ws[1]), atoi(ws[2]), atoi(ws[3]), atoi(ws[4]), atoi(ws[5])
+		// "lap": the subscriber stops reading until the publishers' writes stall - the subscriber's
+		// outgoing ring is full, the publishers' processors are parked in it in the middle of a
+		// fan-out, and the publishers' incoming rings fill up behind them - and only then resumes.
+		// The message being forwarded is decoded in place in the incoming ring: what the subscriber
+		// gets must still be what was sent, however much traffic arrived behind it.
+		lap := ws[0] == "lap"
+		var written int64
 		svr := newServer(int64(bufsize))
 		sub, ok := rawConnect(svr, 1, simpleConnect("sub", 300, nil))
 		if !ok {
@@ -69,6 +76,9 @@ func (concCore) handle(ws []string) string {
 		sub.write(wSubscribe(1, [][]byte{[]byte("t/#")}, []int{qos}))
 		sub.waitUntil(func() bool { return len(sub.items) > 0 }, brokerWait)
 		sub.take()
+		if lap {
+			sub.setPaused(true)
+		}
 		var wg sync.WaitGroup
 		pubs := make([]*rawClient, npub)
 		for k := 0; k < npub; k++ {
@@ -102,6 +112,7 @@ func (concCore) handle(ws []string) string {
 					if err := pubs[k].write(p.encode()); err != nil {
 						return
 					}
+					atomic.AddInt64(&written, 1)
 					if qos == 2 {
 						pubs[k].write(wAck(6, p.id))
 					}
@@ -110,6 +121,24 @@ func (concCore) handle(ws []string) string {
 		}
 		done := make(chan struct{})
 		go func() { wg.Wait(); close(done) }()
+		if lap {
+			// wait until nothing has been written for a while (or everything has), then let the subscriber read
+			prev, still := int64(-1), 0
+			for still < 6 {
+				time.Sleep(50 * time.Millisecond)
+				cur := atomic.LoadInt64(&written)
+				if cur == prev {
+					still++
+				} else {
+					still = 0
+				}
+				prev = cur
+				if cur == int64(npub*nmsg) {
+					break
+				}
+			}
+			sub.setPaused(false)
+		}
 		select {
 		case <-done:
 		case <-time.After(60 * time.Second):
@@ -179,6 +208,13 @@ func genConc(seed int64, n int, tier string, w *bufio.Writer) {
 			size = 100000 + pick(r, []int{1200, 3007, 6000})
 			nmsg = 120 + r.Intn(200)
 			npub = 1 + r.Intn(3)
+		}
+		if i%4 == 1 {
+			// packets of at least one read block (8 KiB), so that the receiver refills the very bytes a
+			// stalled fan-out still needs as soon as they are released; 32 KiB rings keep these packets
+			// out of the range (ring size - 8 KiB, ring size] of finding F3
+			fmt.Fprintf(w, "conc lap %d %d %d %d %d\n", 1+r.Intn(2), 12+r.Intn(20), pick(r, []int{8200, 9000, 12000, 3000}), r.Intn(2), 32768)
+			continue
 		}
 		fmt.Fprintf(w, "conc run %d %d %d %d %d\n", npub, nmsg, size, r.Intn(3), 16384)
 	}
